@@ -48,7 +48,9 @@ PLAN = {
                 mc=[("MC_Scan", {"quick": "MC_Scan.cfg", "thorough": "MC_Scan_thorough.cfg"})]),
     "C12": dict(export="Export_C12", parts=[("m", dict(flags=[(False, False), (True, False)], fresh=True)),
                                             ("n", dict(flags=FF, fresh=True, modes_only=True)),
-                                            ("m", dict(flags=FF, fresh="batch", label="batch"))],
+                                            ("m", dict(flags=FF, fresh="batch", label="batch")),
+                                            # the library's logger at DEBUG level (what `jasm --debug` sets)
+                                            ("m", dict(flags=FF, fresh=True, debug_level=True, label="debug"))],
                 mc=[("MC_Scan", {"quick": "MC_Scan.cfg", "thorough": "MC_Scan_thorough.cfg"})]),
 }
 
@@ -103,7 +105,7 @@ def run_part(report, prop, key, u, opts, tier):
         report.notes.append(f"part {key or 'main'}: {len(pairs)} of {len(job_rules) * len(job_listings)} cases sampled (seed {seed()})")
         report.cov["sampled"] = True
     obs = matchpipe.drive({"rules": job_rules, "listings": job_listings, "pairs": pairs, "want_regex": True,
-                           "fresh": opts.get("fresh", False)}, tag=f"{prop}{key or ''}{opts.get('label', '')}")
+                           "fresh": opts.get("fresh", False), "debug_level": opts.get("debug_level", False)}, tag=f"{prop}{key or ''}{opts.get('label', '')}")
     # binding of the compile-scheme model (JasmCompile): does the real compiler emit the text the model predicts?
     # (never a violation: a harmless refactoring of the emitted text only shows up here as drift)
     seen_rule, same, drift = set(), 0, []
